@@ -270,6 +270,154 @@ def evolve_exact_rule(chk, src, rule):
         chk.ob(rule, "siblings agree (x, shift, phase)", same, f"{MPS}::Mps.evolve_exact", {"Mps": [str(v) for v in a1], "MpDm": [str(v) for v in a2]}, "identical")
 
 
+def purification_rule(chk, src, rule):
+    """abstract runs of MpDm.from_mps (sites with concrete small shapes; the new four-index arrays record which blocks are written), of the two _get_sigmaqn and of
+    max_entangled_gs: every site of the density operator is the state's site on the diagonal of (physical, ancilla) and zero elsewhere, in site order, prefactor, labels
+    (as copies), label centre, direction and configuration carried over; the ancilla carries no charge, operator sites carry (q, -q); the infinite-temperature
+    vibrational state is from_mps of the maximally entangled state of the same model"""
+    from ..syminterp import SymInterp, Sym, Blob, OpenSym, SymRaise
+    from .chain_rules import class_resolver
+    resolve = class_resolver(src, {"MpDm": MPDM, "Mpo": MPO})
+    fm = src.func(MPDM, "MpDm.from_mps")
+    shapes = [(1, 2, 3), (3, 3, 2), (2, 2, 1)]
+
+    class Blk(Sym):
+        """ms[:, i, :] of site k"""
+        def __init__(self, k, i):
+            super().__init__(f"site{k}[:, {i}, :]")
+            self.k, self.i = k, i
+
+        @property
+        def array(self):
+            return self
+
+        def copy(self):
+            return self
+
+    class MS(Sym):
+        def __init__(self, k):
+            super().__init__(f"site{k}")
+            self.k, self.shape, self.ndim = k, shapes[k], 3
+
+        @property
+        def array(self):
+            return self
+
+        def __getitem__(self, key):
+            if isinstance(key, tuple) and len(key) == 3 and key[0] == slice(None) and key[2] == slice(None) and isinstance(key[1], int) and 0 <= key[1] < self.shape[1]:
+                return Blk(self.k, key[1])
+            raise AnalysisError(f"site tensor indexed with {key!r}")
+
+    class Grid(Sym):
+        def __init__(self, shape):
+            super().__init__("new site")
+            self.shape, self.writes = tuple(shape), []
+
+        def __setitem__(self, key, v):
+            self.writes.append((key, v))
+    made = []
+
+    def zeros(shape, dtype=None):
+        g = Grid(tuple(shape) if isinstance(shape, (list, tuple)) else (shape,))
+        made.append(g)
+        return g
+    appended = []
+
+    class New(Sym):
+        def append(self, x):
+            appended.append((x, getattr(self, "model", None)))
+
+    class Lab(Sym):
+        def copy(self):
+            return Lab(self._name + " (copy)")
+    class Cls(Sym):
+        def __call__(self):
+            return New("new mpdm")
+    cls = Cls("MpDm")
+    cls._cls = "MpDm"
+
+    class State(Sym):
+        def __iter__(self):
+            return iter([MS(k) for k in range(3)])
+
+        def __len__(self):
+            return 3
+
+        def __getitem__(self, k):
+            return MS(k)
+    cfg = Sym("compress_config", copy=lambda: Sym("compress_config (copy)"))
+    mps = State("mps", model="the model", coeff="the prefactor", optimize_config="optimize_config", evolve_config="evolve_config", qn=[Lab(f"qn{b}") for b in range(4)], qntot="qntot", qnidx=2,
+                to_right=False, compress_config=cfg, site_num=3)
+    npx = OpenSym("np", make=lambda t: Blob(t), zeros=zeros)
+    it = SymInterp(src, resolve, {"np": npx, "xp": npx, "logger": Blob("logger")})
+    it.max_depth = 8
+    probs = []
+    try:
+        res = it.call_function(fm, [cls, mps])
+    except SymRaise as e:
+        res = None
+        probs.append(f"raises {e}")
+    if res is not None:
+        if len(appended) != 3:
+            probs.append(f"{len(appended)} sites appended")
+        for k, (g, model) in enumerate(appended[:3]):
+            a, p_, b_ = shapes[k]
+            if model != "the model":
+                probs.append(f"site {k} appended before the model is set")
+            if not isinstance(g, Grid) or g.shape != (a, p_, p_, b_):
+                probs.append(f"site {k}: array of shape {getattr(g, 'shape', g)}; expected {(a, p_, p_, b_)}")
+                continue
+            got = {}
+            for key, v in g.writes:
+                if not (isinstance(key, tuple) and len(key) == 4 and key[0] == slice(None) and key[3] == slice(None) and isinstance(key[1], int) and isinstance(key[2], int)):
+                    probs.append(f"site {k}: block written at {key!r}")
+                    continue
+                got[(key[1], key[2])] = (getattr(v, "k", None), getattr(v, "i", None))
+            want = {(i_, i_): (k, i_) for i_ in range(p_)}
+            if got != want:
+                probs.append(f"site {k}: blocks {got}; expected the state's block i at (physical i, ancilla i) for every i: {want}")
+        if getattr(res, "coeff", None) != "the prefactor":
+            probs.append("the prefactor is not carried over")
+        qn = getattr(res, "qn", None)
+        if not (isinstance(qn, list) and [getattr(x, "_name", None) for x in qn] == [f"qn{b} (copy)" for b in range(4)]):
+            probs.append(f"labels {qn!r}; expected copies of the state's labels in order")
+        if (getattr(res, "qntot", None), getattr(res, "qnidx", None), getattr(res, "to_right", None)) != ("qntot", 2, False):
+            probs.append("total charge / label centre / direction not carried over")
+        if getattr(getattr(res, "compress_config", None), "_name", None) != "compress_config (copy)":
+            probs.append("the compression configuration is shared with (or missing from) the source state")
+    chk.ob(rule, "from_mps: diagonal embedding of the physical index, bookkeeping carried over", not probs, fm.where, probs[:3] or "diagonal", "site k = state's site k on the (physical, ancilla) diagonal",
+           line=fm.node.lineno, detail="the purified state must be sum_i |i>_phys |i>_anc x (state block i): an off-diagonal or missing block changes the represented density operator: " + (probs[0] if probs else ""))
+    # ---- site quantum numbers
+    for rel, qual, cname in ((MPDM, "MpDm._get_sigmaqn", "MpDm"), (MPO, "Mpo._get_sigmaqn", "Mpo")):
+        fi = src.func(rel, qual)
+
+        class Up(Sym):
+            def __neg__(self):
+                return Sym("-up")
+        me = Sym("operator", model=Sym("model", basis=[Sym(f"basis{q}", sigmaqn=Up(f"up{q}")) for q in range(3)]))
+        me._cls = cname
+        npq = OpenSym("np", make=lambda t: Blob(t), zeros_like=lambda x: Sym("zeros_like(up)"), zeros=lambda *a, **k_: Sym("zeros_like(up)"))
+        it2 = SymInterp(src, resolve, {"np": npq, "add_outer": lambda a_, b_: ("outer", getattr(a_, "_name", a_), getattr(b_, "_name", b_))})
+        r = it2.call_function(fi, [me, 1])
+        want = ("outer", "up1", "zeros_like(up)") if cname == "MpDm" else ("outer", "up1", "-up")
+        chk.ob(rule, qual, r == want, fi.where, repr(r), repr(want), line=fi.node.lineno,
+               detail="site quantum numbers of a density-operator site: physical index carries the charge, the ancilla none; operator sites carry (row charge, -column charge)")
+    # ---- infinite-temperature vibrational state
+    mg = src.func(MPDM, "MpDm.max_entangled_gs")
+    log = []
+
+    class Cls2(Sym):
+        def from_mps(self, m):
+            log.append(("from_mps", m))
+            return "the density operator"
+    c2 = Cls2("MpDm")
+    c2._cls = "MpDm"
+    it3 = SymInterp(src, None, {"Mps": Sym("Mps", ground_state=lambda model, max_entangled=False, **k_: ("ground_state", model, max_entangled)), "np": npx})
+    r = it3.call_function(mg, [c2, "the model"])
+    chk.ob(rule, "max_entangled_gs = from_mps(maximally entangled vibrational state)", r == "the density operator" and log == [("from_mps", ("ground_state", "the model", True))], mg.where,
+           {"returns": r, "from_mps of": [x[1] for x in log]}, "from_mps(Mps.ground_state(model, max_entangled=True))", line=mg.node.lineno)
+
+
 def run(chk):
     src = chk.src
     chk.explanation = (
@@ -410,25 +558,8 @@ def run(chk):
                 chk.ob("imag-normalise", f"{qual}[{'imaginary' if imag else 'real'} step, normalize={normalize}]", calls == want and res is new, fi.where,
                        {"normalize calls": calls, "returns the scheme's result": res is new}, {"normalize calls": want, "returns the scheme's result": True}, line=fi.node.lineno,
                        detail="imaginary-time steps change the norm: state and prefactor are normalised together; a real-time step only renormalises the tensors (the prefactor carries the phase)")
-    # ---- purification
-    fm = src.func(MPDM, "MpDm.from_mps")
-    emb = [norm_stmt(s, 80) for s in ast.walk(fm.node) if isinstance(s, ast.Assign) and isinstance(s.targets[0], ast.Subscript) and unparse(s.targets[0].value) == "mo"]
-    ok = emb == ["mo[:, iaxis, iaxis, :] = ms[:, iaxis, :].array"]
-    chk.ob("purification", "from_mps: diagonal embedding of the physical index", ok, fm.where, emb, "mo[:, i, i, :] = ms[:, i, :]", line=fm.node.lineno)
-    for rel, qual, want in ((MPDM, "MpDm._get_sigmaqn", ("array_up", "zeros_like")), (MPO, "Mpo._get_sigmaqn", ("array_up", "-array_up"))):
-        fi = src.func(rel, qual)
-        r = [unparse(x.value).replace(" ", "") for x in ast.walk(fi.node) if isinstance(x, ast.Return)]
-        asg = {unparse(s.targets[0]): unparse(s.value).replace(" ", "") for s in ast.walk(fi.node) if isinstance(s, ast.Assign)}
-        if qual.startswith("MpDm"):
-            ok = r == ["add_outer(array_up,array_down)"] and asg.get("array_down") == "np.zeros_like(array_up)"
-        else:
-            ok = r == ["add_outer(array_up,-array_up)"]
-        chk.ob("purification", f"{qual}", ok, fi.where, r, "add_outer(up, 0)" if qual.startswith("MpDm") else "add_outer(up, -up)", line=fi.node.lineno,
-               detail="site quantum numbers of a density-operator site: physical index carries the charge, the ancilla none; operator sites carry (row charge, -column charge)")
-    mg = src.func(MPDM, "MpDm.max_entangled_gs")
-    r = [unparse(x.value).replace(" ", "") for x in ast.walk(mg.node) if isinstance(x, ast.Return)]
-    chk.ob("purification", "max_entangled_gs = from_mps(maximally entangled vibrational state)", r == ["cls.from_mps(Mps.ground_state(model,max_entangled=True))"], mg.where, r,
-           "cls.from_mps(Mps.ground_state(model, max_entangled=True))")
+    # ---- purification: abstract runs
+    purification_rule(chk, src, "purification")
 
 
 META = {
